@@ -3,7 +3,7 @@ empty is not claimed."""
 
 PROPS = {
     "C01": dict(
-        rules=["R-CALC", "R-SLOT", "R-ORDER", "R-REACH", "R-PROV", "R-ENTRY", "R-LISTAPI", "R-ID", "R-SNAP", "R-CHAIN", "R-SUMMARY"],
+        rules=["R-CALC", "R-SLOT", "R-ORDER", "R-REACH", "R-PROV", "R-ENTRY", "R-LISTAPI", "R-ID", "R-SNAP", "R-CHAIN", "R-SUMMARY", "R-WRITE", "R-NOOP", "R-OBJID"],
         decided="necessary conditions for incremental = from-scratch: rule/slot tables, def-before-use in the "
                 "schedule, class-level reachability for link edits, value-level provenance completeness for numeric "
                 "edits, single entry point for edits, no inherited list mutator, injective dedup ids, snapshot order",
@@ -24,22 +24,22 @@ PROPS = {
                 "active <= nb; the fixed instance count is compared against the need before it is used",
         not_decided="every >= inequality numerically; float cancellation in the storage negativity check"),
     "C05": dict(
-        rules=["R-TXN:sim", "R-MIRROR", "R-ZIP", "R-WRITE", "R-REPLACE-SYM", "R-EDGE"],
+        rules=["R-TXN:sim", "R-MIRROR", "R-ZIP", "R-WRITE", "R-REPLACE-SYM", "R-EDGE", "R-ATTACH"],
         decided="exceptional exits of a simulation restore what was replaced; set/reset are mirror images; "
                 "baseline/simulated lists are built in lockstep; rules write only their own attribute",
         not_decided="identity of every object after arbitrary toggle sequences"),
     "C06": dict(
-        rules=["R-ZIP", "R-TXN:date", "R-SIMDATE"],
+        rules=["R-ZIP", "R-TXN:date", "R-SIMDATE", "R-LOCAL", "R-TZREPLACE"],
         decided="twin pairing lists are built in lockstep; the naive-date and outside-period rejections precede "
                 "any mutation (or are rolled back)",
         not_decided="equality with the really-updated model; 'no hour before the date'"),
     "C07": dict(
-        rules=["R-OPREC", "R-OPPAR", "R-INPLACE", "R-LABEL", "R-SUMMARY", "R-PAREN"],
+        rules=["R-OPREC", "R-OPPAR", "R-INPLACE", "R-LABEL", "R-SUMMARY", "R-PAREN", "R-VALUESTORE", "R-WRITE", "R-PARENT-USED"],
         decided="recorded operator and operand order = computed ones; parents recorded; no unrecorded in-place "
                 "numeric change; every assigned result labelled",
         not_decided="numeric re-evaluation of each node"),
     "C08": dict(
-        rules=["R-PROV", "R-EDGE", "R-ID", "R-ACYC", "R-SUMMARY", "R-CHAIN"],
+        rules=["R-PROV", "R-EDGE", "R-ID", "R-ACYC", "R-SUMMARY", "R-CHAIN", "R-ATTACH"],
         decided="completeness (every dependency is a transitive recorded ancestor), both-ends bookkeeping has single "
                 "writers and paired loops, dedup ids injective, attribute graph acyclic at class level",
         not_decided="correctness of attr_updates_chain on arbitrary graphs"),
@@ -54,16 +54,16 @@ PROPS = {
                 "scale-invariant context",
         not_decided="nothing beyond pint's own correctness"),
     "C11": dict(
-        rules=["R-LOCAL"],
+        rules=["R-LOCAL", "R-TZREPLACE", "R-VALUESTORE"],
         decided="only the UTC converter (and the simulation filter, which localises explicitly) reads the local-time "
                 "series; every other rule reads the UTC attribute",
         not_decided="totals, DST merging, offsets (pandas/pytz runtime semantics)"),
     "C12": dict(
-        rules=["R-DEG", "R-LEAK"],
+        rules=["R-DEG", "R-LEAK", "R-PROV"],
         decided="homogeneity degree of each footprint formula in each documented driver, and independence rows",
         not_decided="floating-point exactness of k*x"),
     "C13": dict(
-        rules=["R-JSON-KEYS", "R-JSON-KINDS", "R-JSON-UPG", "R-JSON-CLS", "R-JSON-ID"],
+        rules=["R-JSON-KEYS", "R-JSON-KINDS", "R-JSON-UPG", "R-JSON-CLS", "R-JSON-ID", "R-JSON-LOAD", "R-JSON-SIB"],
         decided="writer/reader key agreement, to_json dispatch covers every attribute kind, upgrade-handler table "
                 "total, class table covers the reachable classes",
         not_decided="numeric equality after reload, byte-equality of re-export, liveness of the loaded system"),
@@ -74,27 +74,27 @@ PROPS = {
                 "overrides delegate",
         not_decided="nothing stated as undecided; the checks are structural"),
     "C15": dict(
-        rules=["R-TXN:recompute", "R-EDGE"],
+        rules=["R-TXN:recompute", "R-EDGE", "R-RULE-TXN"],
         decided="an exception leaving the recompute loop restores every value already replaced",
         not_decided="behaviour of arbitrary later histories"),
     "C16": dict(
-        rules=["R-LISTAPI", "R-LISTPAIR", "R-LISTSIB", "R-LIVE", "R-REV", "R-EDGE", "R-GUARD"],
+        rules=["R-LISTAPI", "R-LISTPAIR", "R-LISTSIB", "R-LIVE", "R-REV", "R-EDGE", "R-GUARD", "R-NOOP", "R-OBJID", "R-ATTACH"],
         decided="list-API exhaustiveness, attach/detach pairing per mutator, shadow-copy/real-op agreement, receiver "
                 "typestate after a mutator, reverse look-ups derived not stored, single writers of link bookkeeping, "
                 "delete guard and system exclusivity ordering",
         not_decided="list-content equivalence with Python lists for every operation sequence"),
     "C17": dict(
-        rules=["R-CALC", "R-PROV", "R-ORDER", "R-PLACEHOLDER", "R-SIB-JOB", "R-SERV", "R-DEG", "R-REACH"],
+        rules=["R-CALC", "R-PROV", "R-ORDER", "R-PLACEHOLDER", "R-SIB-JOB", "R-SERV", "R-DEG", "R-REACH", "R-PARENT-USED"],
         decided="builder rule tables, provenance and schedule; constant placeholders are calculated; Job/ServiceJob "
                 "agree; server accounts for services; the two stated builder formulas have the stated shape",
         not_decided="numeric equality builder-model vs plain-model"),
     "C18": dict(
-        rules=["R-ORDER", "R-WRITE", "R-ACYC", "R-INPLACE", "R-PUREVIEW"],
+        rules=["R-ORDER", "R-WRITE", "R-ACYC", "R-INPLACE", "R-PUREVIEW", "R-VALUESTORE", "R-CHAIN"],
         decided="def-before-use in the canonical schedule, rules write only their own attribute, acyclicity, no "
                 "value-changing in-place call on model state, read-only views",
         not_decided="determinism of pint/pandas (trusted)"),
     "C19": dict(
-        rules=["R-SEL", "R-IDFLOW", "R-LEAK"],
+        rules=["R-SEL", "R-IDFLOW", "R-LEAK", "R-ACCUM", "R-OBJID"],
         decided="positional selection from hash-ordered collections only at proven-singleton sites; identity never "
                 "flows into values",
         not_decided="last-ulp effects of summation order over set-ordered collections (listed, not alarmed)"),
